@@ -268,6 +268,8 @@ def res_equal(impl, want, req=None):
         return impl.startswith('err ')
     if impl == want:
         return True
+    if req and req.startswith('entries ') and _unsorted_follow_error(req, impl, want):
+        return True      # not judged: order-dependent (see cmp_line)
     if req and req.startswith('entries ') and impl.startswith('ok t:') and want.startswith('ok t:'):
         a = req.split(' ')
         if len(a) > 5 and a[5] == '1':
@@ -732,6 +734,14 @@ def _copy_src_entries(req, impl):
         return 0
 
 
+def _unsorted_follow_error(req, io, mo):
+    a = req.split(' ')
+    if len(a) < 7 or a[5] != '1' or a[6] != 'u':
+        return False
+    ends_err = lambda r: r.startswith('ok t:') and (r[5:].split(',')[-1].startswith('E'))
+    return ends_err(io) or ends_err(mo)
+
+
 def _only_link_kinds_differ(a, b):
     """two state dumps differ only in the d/f/files fields of link entries"""
     import re
@@ -768,6 +778,8 @@ def cmp_line(req, impl, model, cls=None):
         return 'dead'     # a copy of a tree with several entries that fails: WHICH entry fails first (and with which kind) depends on the set order
     if op in UNORDERED_OPS and 'LinkLooping' in io and 'LinkLooping' in mo:
         return 'dead'
+    if op == 'entries' and _unsorted_follow_error(req, io, mo):
+        return 'dead'     # unsorted traversal that follows links and ends in an error: what was yielded before it, and which error comes first, depends on the set order
     a = req.split(' ')
     follow = (op == 'copy_b' and a[5] == '1') or (op in ('chown_b', 'chmod_b') and a[4] == '1') or (op == 'entries' and a[5] == '1')
     if follow and io.startswith('err') and mo.startswith('err'):
